@@ -544,29 +544,33 @@ func drawString(t *rapid.T, allowInvalid bool) []byte {
 	return []byte(gen.ValidString(40).Draw(t, "str"))
 }
 
+var leafKinds = []string{"int", "string", "float64", "jsonnum", "bytes", "bool", "float32", "nil"}
+var allKinds = append([]string{"map", "list", "map", "list"}, leafKinds...)
+var weightedIntKinds = []string{"int64", "uint64", "int", "uint", "int64", "uint64", "int32", "uint32", "int16", "uint16", "int8", "uint8"}
+
 func drawJV(t *rapid.T, depth int, budget *int) JV {
 	*budget--
-	maxKind := 13
+	kinds := allKinds
 	if depth <= 0 || *budget <= 0 {
-		maxKind = 9
+		kinds = leafKinds
 	}
-	switch rapid.IntRange(0, maxKind).Draw(t, "kind") {
-	case 0:
+	switch rapid.SampledFrom(kinds).Draw(t, "kind") {
+	case "nil":
 		return JV{K: "nil"}
-	case 1:
+	case "bool":
 		return JV{K: "bool", B: rapid.Bool().Draw(t, "b")}
-	case 2, 3:
-		k := rapid.SampledFrom(intKinds).Draw(t, "intkind")
+	case "int":
+		k := rapid.SampledFrom(weightedIntKinds).Draw(t, "intkind")
 		u := gen.Uint64().Draw(t, "int")
 		i, uu := clampInt(k, int64(u), u)
 		return JV{K: k, I: i, U: uu}
-	case 4:
+	case "float64":
 		return JV{K: "float64", U: gen.Float64Bits().Draw(t, "f64")}
-	case 5:
+	case "float32":
 		return JV{K: "float32", U: uint64(gen.Float32Bits().Draw(t, "f32"))}
-	case 6:
+	case "jsonnum":
 		switch rapid.IntRange(0, 9).Draw(t, "numclass") {
-		case 0:
+		case 9:
 			return JV{K: "jsonnum", S: []byte(rapid.SampledFrom(notNumbers).Draw(t, "notnum"))}
 		case 1, 2, 3:
 			return JV{K: "jsonnum", S: []byte(rapid.SampledFrom(numberTexts).Draw(t, "numtext"))}
@@ -584,12 +588,12 @@ func drawJV(t *rapid.T, depth int, budget *int) JV {
 			}
 			return JV{K: "jsonnum", S: []byte(s)}
 		}
-	case 7, 8:
+	case "string":
 		return JV{K: "string", S: drawString(t, true)}
-	case 9:
+	case "bytes":
 		return JV{K: "bytes", S: gen.Bytes(40).Draw(t, "bytes")}
-	case 10, 11:
-		if rapid.IntRange(0, 9).Draw(t, "nilmap?") == 4 {
+	case "map":
+		if rapid.IntRange(0, 11).Draw(t, "nilmap?") == 7 {
 			return JV{K: "nilmap"}
 		}
 		n := rapid.IntRange(0, 5).Draw(t, "nkeys")
@@ -611,7 +615,7 @@ func drawJV(t *rapid.T, depth int, budget *int) JV {
 		}
 		return v
 	default:
-		if rapid.IntRange(0, 9).Draw(t, "nillist?") == 4 {
+		if rapid.IntRange(0, 11).Draw(t, "nillist?") == 7 {
 			return JV{K: "nillist"}
 		}
 		n := rapid.IntRange(0, 5).Draw(t, "nelems")
